@@ -430,8 +430,21 @@ func (e *Exec) conv(dst, src types.Type, x Value) Value {
 					return e.tb.BV(dw, uint64(int64(f)))
 				}
 				return e.tb.BV(dw, uint64(f))
-			case *Value, Native: // uintptr(unsafe.Pointer)
-				e.outside("pointer to integer conversion")
+			case *Value, Native: // uintptr(unsafe.Pointer): an arbitrary address, equal for equal pointers
+				k, _ := concKey(v)
+				if n, isN := v.(Native); isN && nativeIsNil(n) {
+					return e.tb.BV(dw, 0)
+				}
+				if p, isP := v.(*Value); isP && p == nil {
+					return e.tb.BV(dw, 0)
+				}
+				t, ok := e.ptrInts[k]
+				if !ok {
+					t = e.tb.Var(fmt.Sprintf("addr!%d", len(e.ptrInts)), sortBV(64))
+					e.ptrInts[k] = t
+					e.assume(e.tb.Not(e.tb.Eq(t, e.tb.BV(64, 0))))
+				}
+				return e.tb.Resize(t, dw, false)
 			}
 		}
 		if ud.Info()&types.IsFloat != 0 {
